@@ -230,7 +230,31 @@ func applyOp(s ethvm.StateDB, o Op) {
 	case "alslot":
 		s.AddSlotToAccessList(a, k)
 	case "prepal":
-		s.PrepareAccessList(a, &opAddrs[(o.A+1)%len(opAddrs)], []ethcmn.Address{opAddrs[4]}, ethtypes.AccessList{{Address: opAddrs[(o.A+2)%len(opAddrs)], StorageKeys: []ethcmn.Hash{k}}})
+		// the list's shape comes from the operation's number: 0-3 entries with 0-2 storage keys each (an entry without
+		// keys still warms its address), with or without a destination, 0-2 precompiles
+		n := int(o.N)
+		if n < 0 {
+			n = -n
+		}
+		var al ethtypes.AccessList
+		for e := 0; e < n%4; e++ {
+			t := ethtypes.AccessTuple{Address: opAddrs[(o.A+2+e)%len(opAddrs)]}
+			for q := 0; q < (n/4+e)%3; q++ {
+				kk := k
+				kk[31] ^= byte(q)
+				t.StorageKeys = append(t.StorageKeys, kk)
+			}
+			al = append(al, t)
+		}
+		var dst *ethcmn.Address
+		if (n/12)%3 != 0 {
+			dst = &opAddrs[(o.A+1)%len(opAddrs)]
+		}
+		var pre []ethcmn.Address
+		for q := 0; q < (n/36)%3; q++ {
+			pre = append(pre, opAddrs[(4+q)%len(opAddrs)])
+		}
+		s.PrepareAccessList(a, dst, pre, al)
 	case "read":
 		_ = s.GetState(a, k)
 		_ = s.GetCommittedState(a, k)
